@@ -122,5 +122,8 @@ example : ArgsOK ⟨8, 2 ^ 64, 256⟩ ⟨⟨[97, 98, 99, 0, 0, 0, 0, 0, 0], 3⟩
     (.itWalkIdx false (.pos 0) [] 2) := by
   show addW _ (itWalk _ _ false (itOf _ _ (.pos 0)) []) 2 ≤ 8
   decide
+/-- `C10_strlen` instantiated, and its hypothesis is needed: with a stored NUL `strlen` is shorter than `length()` -/
+example : cstrlen [97, 98, 0, 120] = .ok 2 := C10_strlen ⟨3, 2 ^ 64, 256⟩ ⟨[97, 98, 0, 120], 2⟩ (by decide) (by decide)
+example : WF ⟨3, 2 ^ 64, 256⟩ ⟨[97, 0, 99, 0], 3⟩ ∧ cstrlen [97, 0, 99, 0] = .ok 1 := ⟨by decide, rfl⟩
 
 end CelmaVerif.Props.C10
